@@ -14,7 +14,7 @@ def load(path):
             d[m.group(1)] = (int(m.group(3)), int(m.group(4)), (m.group(6) or '').strip())
     return d
 first = {}
-for f in ['RESULTS-round1.txt', 'RESULTS-round3-first-try.txt', 'RESULTS-round5-first-try.txt', 'RESULTS-round7-first-try.txt']:
+for f in ['RESULTS-round1.txt', 'RESULTS-round3-first-try.txt', 'RESULTS-round5-first-try.txt', 'RESULTS-round7-first-try.txt', 'RESULTS-round9-first-try.txt']:
     first.update(load(R + f))
 final = load(R + 'RESULTS-final.txt')
 rows = ["| Seeded change | What it changes (needs to manifest) | First try | Now | Reported as |", "|---|---|---|---|---|"]
@@ -28,7 +28,7 @@ for d in sorted(glob.glob(R + 'C*-*')):
     sup = 'superseded' in m
     fdet = first.get(s, (0, 0, ''))[1] > 0
     ndet = final.get(s, (0, 0, ''))[1] > 0
-    rnd = {'A': 1, 'B': 1, 'C': 3, 'D': 3, 'E': 5, 'F': 5, 'G': 7, 'H': 7}[s[-1]]
+    rnd = {'A': 1, 'B': 1, 'C': 3, 'D': 3, 'E': 5, 'F': 5, 'G': 7, 'H': 7, 'I': 9, 'J': 9}[s[-1]]
     st = stats.setdefault(rnd, {'n': 0, 'first': 0, 'live': 0, 'now': 0})
     st['n'] += 1; st['first'] += fdet
     if not sup:
